@@ -12,6 +12,13 @@ import (
 	"golang.org/x/tools/go/ssa"
 )
 
+// Hooks installed by the rules' canonical naming layer (identity by default).
+var (
+	FieldNameHook = func(v *types.Var) string { return v.Name() }
+	FuncNameHook  = func(f *ssa.Function) string { return "" }
+	TypeNameHook  = func(tn *types.TypeName) string { return tn.Name() }
+)
+
 // ---------- basic accessors ----------
 
 // Instrs calls f for every instruction of fn (not descending into closures).
@@ -174,6 +181,19 @@ func QualifiedName(fn *ssa.Function) string {
 	if fn == nil {
 		return "<nil>"
 	}
+	if a := FuncNameHook(fn); a != "" {
+		return a
+	}
+	return rawQualifiedName(fn, true)
+}
+
+// RawQualifiedName ignores function aliases (type aliases still apply).
+func RawQualifiedName(fn *ssa.Function) string { return rawQualifiedName(fn, false) }
+
+func rawQualifiedName(fn *ssa.Function, aliases bool) string {
+	if fn == nil {
+		return "<nil>"
+	}
 	if fn.Parent() != nil {
 		return QualifiedName(fn.Parent()) + "$" + strings.TrimPrefix(fn.Name(), fn.Parent().Name()+"$")
 	}
@@ -192,7 +212,7 @@ func QualifiedName(fn *ssa.Function) string {
 		}
 		tn := "?"
 		if n, ok := t.(*types.Named); ok {
-			tn = n.Obj().Name()
+			tn = TypeNameHook(n.Obj())
 		}
 		if ptr {
 			return pkg + ".(*" + tn + ")." + fn.Name()
@@ -236,7 +256,7 @@ func FieldAddr(v ssa.Value) (base ssa.Value, field string, ok bool) {
 	if st == nil {
 		return nil, "", false
 	}
-	return fa.X, st.Field(fa.Field).Name(), true
+	return fa.X, FieldNameHook(st.Field(fa.Field)), true
 }
 
 // FieldLoad decomposes v = base.Field read either as *(&base.Field) or as a
@@ -252,7 +272,7 @@ func FieldLoad(v ssa.Value) (base ssa.Value, field string, ok bool) {
 		if st == nil {
 			return nil, "", false
 		}
-		return x.X, st.Field(x.Field).Name(), true
+		return x.X, FieldNameHook(st.Field(x.Field)), true
 	}
 	return nil, "", false
 }
@@ -272,9 +292,9 @@ func NamedOf(t types.Type) (pkgPath, name string) {
 	}
 	if n, ok := t.(*types.Named); ok {
 		if n.Obj().Pkg() != nil {
-			return n.Obj().Pkg().Path(), n.Obj().Name()
+			return n.Obj().Pkg().Path(), TypeNameHook(n.Obj())
 		}
-		return "", n.Obj().Name()
+		return "", TypeNameHook(n.Obj())
 	}
 	return "", ""
 }
